@@ -8,7 +8,7 @@ import time
 
 from . import evlog, instr_mp
 
-NOPROG = ("get_call", "get_empty", "is_set")
+NOPROG = ("get_call", "get_empty", "is_set", "is_set_call")
 
 
 def analyse(recs):
@@ -48,6 +48,93 @@ def analyse(recs):
     return st
 
 
+def all_blocked(recs):
+    """general logical deadlock over the recorded queue protocol: every live process of the stage (owner included) is
+    blocked - polling an empty queue on which no put can complete, waiting in put on a full bounded queue, or joining a
+    live process - no callback is running and the shutdown flag is down.  Returns a description or None."""
+    owner = None
+    state = {}
+    live = set()
+    filled = collections.Counter()
+    maxsize = {}
+    running = set()
+    eset = False
+    for r in recs:
+        k, p = r["k"], r["pid"]
+        if k == "stage_call":
+            owner = p
+            live.add(p)
+        elif k in ("stage_ret", "stage_exc"):
+            return None
+        elif k == "q_new":
+            maxsize[r["q"]] = r.get("maxsize") or 0
+        elif k == "put_call":
+            state[p] = ("put", r["q"])
+        elif k == "put_ret":
+            filled[r["q"]] += 1
+            state[p] = None
+        elif k == "put_full":
+            state[p] = None
+        elif k == "get_call":
+            state[p] = ("get", r["q"])
+        elif k == "get_empty":
+            state[p] = ("get", r["q"])
+        elif k == "is_set":
+            pass
+        elif k == "get_ret":
+            filled[r["q"]] -= 1
+            state[p] = None
+        elif k == "join_call":
+            state[p] = ("join", r.get("child"))
+        elif k == "join_ret":
+            state[p] = None
+        elif k == "join_thread_call":
+            state[p] = ("flush", r.get("q"))
+        elif k == "join_thread_ret":
+            state[p] = None
+        elif k == "proc_run":
+            live.add(p)
+            state[p] = None
+        elif k == "proc_exit":
+            live.discard(p)
+            running.discard(p)
+        elif k == "cb_start":
+            running.add(p)
+            state[p] = None
+        elif k in ("cb_end", "cb_exc"):
+            running.discard(p)
+        elif k == "event_set":
+            eset = True
+        elif k == "feed":
+            pass
+        else:
+            if p in state and k not in NOPROG:
+                state[p] = None
+    if owner is None or eset or running or len(live) < 2:
+        return None
+    pending_put = collections.Counter(s[1] for p, s in state.items() if p in live and s and s[0] == "put")
+    why = []
+    for p in live:
+        s = state.get(p)
+        if not s:
+            return None
+        if s[0] == "get":
+            if filled[s[1]] > 0:
+                return None
+            if pending_put[s[1]] and not (maxsize.get(s[1], 0) and filled[s[1]] >= maxsize[s[1]]):
+                return None
+        elif s[0] == "put":
+            if not (maxsize.get(s[1], 0) and filled[s[1]] >= maxsize[s[1]]):
+                return None
+        elif s[0] == "join":
+            if s[1] not in live:
+                return None
+        else:
+            return None
+        why.append("%s:%s(%s)" % ("owner" if p == owner else "worker", s[0], s[1]))
+    return "every live process is blocked: " + ", ".join(sorted(why)[:8])
+
+
 def stuck_predicate(recs, kind):
     """None if some transition is enabled (or the stage ended); else a description dict.
     kind: 'walk' (ready/done queue protocol) or 'producer' (bounded queue + done event)."""
@@ -56,6 +143,15 @@ def stuck_predicate(recs, kind):
         return None
     if st["proc_run"] == 0 or st["proc_run"] < st["proc_start"]:
         return None  # workers still starting
+    ab = all_blocked(recs)
+    if ab:
+        return dict(progress=st["progress"], live=len(st["live"]), owner_last=(st["last"].get(st["owner"]) or ("?",))[0], why=ab)
+    lo_ = st["last"].get(st["owner"])
+    if lo_ and lo_[0] == "event_set" and all(st["last"].get(p, ("?",))[0] == "is_set_call" for p in st["live"]):
+        # Event.set / Event.is_set take the event's internal lock for microseconds (30 ms under profile slow_isset); if the
+        # owner has called set() and every live worker has called is_set() and nobody returns, the lock is held by a dead process
+        return dict(progress=len(recs), live=len(st["live"]), owner_last="event_set",
+                    why="owner blocked inside Event.set(): the event's lock is held by a process that no longer exists; %d live worker(s) blocked in is_set()" % len(st["live"]))
     owner = st["owner"]
     lo = st["last"].get(owner)
     if lo is None:
@@ -89,6 +185,26 @@ def stuck_predicate(recs, kind):
             desc["why"] = "producer joins a worker that only cycles on an empty queue and the done flag was never raised"
             return desc
     return None
+
+
+def with_dead_processes(recs):
+    """a worker that was killed (SIGTERM from check_workers, SIGKILL) logs no proc_exit: look at /proc and add one"""
+    started, ended = set(), set()
+    for r in recs:
+        if r["k"] == "proc_run":
+            started.add(r["pid"])
+        elif r["k"] == "proc_exit":
+            ended.add(r["pid"])
+    extra = []
+    for p in started - ended:
+        try:
+            with open("/proc/%d/stat" % p) as f:
+                state = f.read().rsplit(")", 1)[1].split()[0]
+        except (OSError, IndexError):
+            state = "X"
+        if state in ("Z", "X"):
+            extra.append(dict(k="proc_exit", pid=p, t=0, synthetic=True))
+    return recs + extra if extra else recs
 
 
 def run_stage(fn, logpath, kind, watchdog=60.0, poll=None):
@@ -128,6 +244,7 @@ def run_stage(fn, logpath, kind, watchdog=60.0, poll=None):
             recs = evlog.read(logpath)
         except OSError:
             recs = []
+        recs = with_dead_processes(recs)
         s = stuck_predicate(recs, kind)
         if s is not None and prev is not None and prev["progress"] == s["progress"] and time.time() - prev["_t"] >= 5 * to:
             outcome = "stuck"
